@@ -316,3 +316,14 @@ package pegnet
 //@   trusted
 //@   pure
 //@   ensures envHealthy ==> result1 == nil || result1 == sql.ErrNoRows
+//@
+//@ // coinbase history rows (no balance effect)
+//@ func (*Pegnet).InsertCoinbase
+//@   trusted
+//@   pure
+//@   ensures !isRejectErr(result)
+//@
+//@ func (*Pegnet).InsertStaking100Coinbase
+//@   trusted
+//@   pure
+//@   ensures !isRejectErr(result)
